@@ -36,7 +36,7 @@ class DOO_node(P_node):
         super(DOO_node, self).__init__(depth, index, parent, domain)
 
         self.b_value = np.inf
-        self.reward = 0
+        self.reward = -np.inf
         self.visited = False
 
     def update_reward(self, reward):
